@@ -86,10 +86,12 @@ cocls::with_allocator<St, cocls::async<int>> st_body(St &, c19_ctx &C, int id, c
     co_return id;
 }
 template <typename St> cocls::future<int> st_start(St &st, c19_ctx &C, int id, cocls::future<void> *gate, int size_class) {
-    switch (size_class) {
+    switch (size_class) { // five frame sizes, two pairs only a few words apart (a policy that fails to grow for a slightly larger frame)
     case 0: return st_body<St, 2>(st, C, id, gate).start();
     case 1: return st_body<St, 24>(st, C, id, gate).start();
-    default: return st_body<St, 90>(st, C, id, gate).start();
+    case 2: return st_body<St, 90>(st, C, id, gate).start();
+    case 3: return st_body<St, 6>(st, C, id, gate).start();
+    default: return st_body<St, 29>(st, C, id, gate).start();
     }
 }
 
@@ -108,13 +110,13 @@ void st_sequence(vf::rng &r, Make &&make, int maxlive, bool expect_no_heap_after
         int len = 4 + (int)r.below(20);
         int nextid = 1;
         res.desc = std::string(name) + ": ";
-        // warm-up with the largest frame so that a reusing policy has its block
-        { cocls::future<int> f = st_start(*st, C, 0, nullptr, 2); if (f.wait() != 0) res.err = "warm-up coroutine returned a wrong value"; }
+        // first frame of a random size: later, larger frames force the policy to grow its block
+        { cocls::future<int> f = st_start(*st, C, 0, nullptr, (int)r.below(5)); if (f.wait() != 0) res.err = "first coroutine returned a wrong value"; }
         long heap0 = g_heap_news.load();
         for (int step = 0; step < len && res.err.empty(); step++) {
             bool create = live.empty() || ((int)live.size() < maxlive && r.chance(1, 2));
             if (create) {
-                int sc = (int)r.below(3);
+                int sc = (int)r.below(5);
                 bool suspend = maxlive > 1 ? r.chance(3, 4) : r.chance(1, 2);
                 live_t L; L.id = nextid++;
                 res.desc += "create(size" + std::to_string(sc) + (suspend ? ",suspends) " : ") ");
@@ -235,7 +237,8 @@ inline void storage_sequences(const vf::opts &o, vf::report &R, uint64_t seqs) {
                 c19_ctx C;
                 cocls::future<void> gate; auto gp = gate.get_promise();
                 {
-                    auto coro = st_body<monitored<ES>, 24>(st, C, 7, &gate); // coroutine object exists, not started
+                    bool big = r.chance(1, 2);
+                    auto coro = big ? st_body<monitored<ES>, 90>(st, C, 7, &gate) : st_body<monitored<ES>, 24>(st, C, 7, &gate); // coroutine object exists, not started
                     if (tracked::live.load() != live0 + 1) res.err = "extra object not constructed exactly once when the coroutine object was created (live delta " + std::to_string(tracked::live.load() - live0) + ")";
                     else if (!(*st).ok() || st->id != 4242) res.err = "extra object not usable before the coroutine is started";
                     cocls::future<int> f = coro.start();
@@ -244,7 +247,7 @@ inline void storage_sequences(const vf::opts &o, vf::report &R, uint64_t seqs) {
                     if (res.err.empty() && (!f.ready() || f.value() != 7)) res.err = "coroutine with extra object returned a wrong value";
                 }
                 if (res.err.empty() && tracked::live.load() != live0) res.err = "extra object not destroyed with the frame (live delta " + std::to_string(tracked::live.load() - live0) + ")";
-                if (res.err.empty() && tracked::ctor.load() - ctor0 > 2) res.err = "extra object constructed more than once";
+                if (res.err.empty() && tracked::ctor.load() - ctor0 != 1) res.err = "extra object constructed " + std::to_string(tracked::ctor.load() - ctor0) + " times instead of once";
                 // never started: destroyed with the frame as well
                 { auto coro2 = st_body<monitored<ES>, 2>(st, C, 8, nullptr); (void)coro2; }
                 if (res.err.empty() && tracked::live.load() != live0) res.err = "extra object of a never started coroutine not destroyed exactly once";
